@@ -17,7 +17,7 @@ theorem removeConsolidate_merge_eq {f : Forest} {u v : Nat} {us vs : Str} (hc : 
   unfold removeConsolidate; simp [hc, tu, tv]
 
 section gap
-variable {f : Forest} {a : Nat} {init : List Frame} {fr : Frame} {l0 : List HTree} {P A N : HTree}
+variable {f : Forest} {a : Nat} {init : List ZipFrame} {fr : ZipFrame} {l0 : List HTree} {P A N : HTree}
   {r0 : List HTree} {ps ns : Str}
 
 theorem Gap.leftOf (g : Gap f a init fr l0 P A N r0 ps ns) (nd : f.allHandles.Nodup) :
@@ -88,7 +88,7 @@ theorem Gap.first_step (g : Gap f a init fr l0 P A N r0 ps ns) (hi : f.Inv) {b :
     have huv : u ≠ v := by
       intro e
       apply (locV.fresh nd).left
-      simp only [fi_handlesList_append, handlesList_cons, handlesList_nil, List.append_nil, List.mem_append]
+      simp only [fi_handlesList_append, fi_handlesList_cons, fi_handlesList_nil, List.append_nil, List.mem_append]
       exact Or.inl (Or.inr (by rw [← e, ← hUh]; exact fi_handle_mem_handles U))
     have hva' : (f.ancestors a).contains v = false := text_not_ancestor hi tv g.mem hva
     have hua' : (f.ancestors a).contains u = false := text_not_ancestor hi tu g.mem hua
